@@ -625,6 +625,14 @@ def corpus_net(rng, name):
             y = b.pool(x, "AVERAGE_POOL_2D", (2, 2), (1, 4), "VALID")
             z = b.reshape(y, [1, 84])
         return b.finish([z])
+    if name == "known_sqdiff_broadcast_first":
+        # round 5 (rank sweep): SQUARED_DIFFERENCE whose first operand is the broadcast one (patch C01-48)
+        b = make_builder(rng, name, "int8")
+        x = b.input([1, 6, 3, 5], scale=0.05, zp=3)
+        y = b.input([5], scale=0.04, zp=-2)
+        o = b.fm([1, 6, 3, 5], "int8", scale=0.2, zp=-100)
+        b.net.ops.append(netgen.Op("SQUARED_DIFFERENCE", [y, x], [o], ("SquaredDifferenceOptions", {})))
+        return b.finish([o])
     if name == "known_fc_keep_dims_batch":
         # round 5 (rank sweep): FULLY_CONNECTED with keep_num_dims and a rank 4 result whose first dimension is 2 (patch C01-47)
         b = make_builder(rng, name, "int8")
@@ -1106,6 +1114,8 @@ def classify_failure(o, ans):
                 return "unpack-negative-axis-converted-with-the-rule-of-pack"
             if kind == "SLICE" and len(ins) > 2 and ins[2] < len(ti) and ti[ins[2]][4] is not None and -1 in ti[ins[2]][4]:
                 return "slice-size-minus-one-not-resolved"
+            if kind == "SQUARED_DIFFERENCE" and ins[0] < len(ti) and outs[0] < len(ti) and list(ti[ins[0]][0]) != list(ti[outs[0]][0]):
+                return "squared-difference-first-operand-broadcast"
             if kind == "FULLY_CONNECTED" and n_op < len(sopts) and sopts[n_op].get("KeepNumDims") and outs[0] < len(ti) and \
                     len(ti[outs[0]][0]) == 4 and ti[outs[0]][0][0] > 1:
                 return "fc-keep-num-dims-rank4-result-rows-not-written"
@@ -1237,7 +1247,7 @@ def replay(ck, path):
 
 def main():
     ck = Check("C01", "translation_validation")
-    ck.lean_stage(["VelaVerif.Props.C01", "VelaVerif.Props.C01Rewrites", "VelaVerif.Props.C01Wide"])
+    ck.lean_stage(["VelaVerif.Props.C01", "VelaVerif.Props.C01Rewrites", "VelaVerif.Props.C01Wide", "VelaVerif.Props.C01StridedSlice"])
     if ck.replay_arg:
         replay(ck, ck.replay_arg)
     import pipeline
@@ -1269,7 +1279,7 @@ def main():
                                                               "transpose_relu", "sqdiff_reshape", "dilation3_uint8", "shared_dilation3", "shared_tconv",
                                                               "prelu_reshape", "transpose_lut_mul", "protected_reshape_inplace",
                                                               "tconv_stride1_same_even", "tconv_stride1_valid", "pad_folded_conv", "shared_fold_same_valid",
-                                                              "unpack_negative_axis", "slice_size_minus1", "transpose_rank2_identity", "slice_end_clamped", "fc_keep_dims_batch")]
+                                                              "unpack_negative_axis", "slice_size_minus1", "transpose_rank2_identity", "slice_end_clamped", "fc_keep_dims_batch", "sqdiff_broadcast_first")]
     # round-5 families first (so that the wall-clock budget of the quick tier never cuts them)
     jobs += [(ck.seed, i, "ssmask", k_inputs) for i in range(2400 if ck.thorough else 300)]
     jobs += [(ck.seed, i, "ranks", k_inputs) for i in range(3024 if ck.thorough else 378)]      # 21 kinds x 6 x 3 axis variants
